@@ -190,7 +190,7 @@ func (t tcase) sx() Sx {
 	return L(I(int64(t.kind)), I(int64(t.fork)), ev, pre, tx)
 }
 
-func addrOf(b *big.Int) common.Address { return common.BigToAddress(b) }
+func addrOf(b *big.Int) common.Address  { return common.BigToAddress(b) }
 func addrBig(a common.Address) *big.Int { return new(big.Int).SetBytes(a.Bytes()) }
 
 // ---------------------------------------------------------------------------
@@ -468,6 +468,18 @@ func (tc *touched) diff(a, b *dump, all bool) string {
 	return ""
 }
 
+// isWriteOp: does this opcode, with the operands on the stack, modify state?
+func isWriteOp(op vm.OpCode, scope tracing.OpContext) bool {
+	switch op {
+	case vm.SSTORE, vm.TSTORE, vm.LOG0, vm.LOG1, vm.LOG2, vm.LOG3, vm.LOG4, vm.CREATE, vm.CREATE2, vm.SELFDESTRUCT:
+		return true
+	case vm.CALL:
+		sd := scope.StackData()
+		return len(sd) >= 3 && !sd[len(sd)-3].IsZero()
+	}
+	return false
+}
+
 // ---------------------------------------------------------------------------
 
 type frameRec struct {
@@ -475,7 +487,9 @@ type frameRec struct {
 	from   common.Address
 	to     common.Address
 	static bool
+	sdepth int // number of STATICCALLs on the path to this frame
 	entry  *dump
+	moved  bool // the refund counter differed from its entry value at some opcode of this frame
 }
 
 type runOut struct {
@@ -490,7 +504,9 @@ type runOut struct {
 	nFrames  int
 	nFailed  int // frames that reverted / failed after touching state is not known here: all reverted frames
 	nStatic  int
-	nDirty   int // reverted frames whose state differed from the entry state at some point is not tracked; see tags
+	nReject  int // write attempts in a static context that were rejected
+	sDepth   int // deepest nesting of static frames (a STATICCALL issued from a static context counts 2, ...)
+	refunds  int // frames at whose exit the refund counter differed from its value at entry (not reverted)
 	kinds    map[string]bool
 	panicked string
 	overrun  bool
@@ -508,6 +524,23 @@ func execute(t tcase, level int, tc *touched, check bool) (out runOut) {
 	st := buildState(t)
 	out.st = st
 	var stack []frameRec
+	// a state-writing opcode that started executing in a static context: the very next tracer
+	// event must be the OnFault of that opcode with ErrWriteProtection
+	var pending struct {
+		active bool
+		depth  int
+		op     vm.OpCode
+		pc     uint64
+	}
+	pendingBroken := func(what string) {
+		if pending.active {
+			pending.active = false
+			if len(out.viol) < 3 {
+				out.viol = append(out.viol, fmt.Sprintf("%s at pc %d depth %d executed in a static context without a write-protection fault (next event: %s)",
+					pending.op, pending.pc, pending.depth, what))
+			}
+		}
+	}
 	bad := func(s string) {
 		if len(out.viol) < 3 {
 			out.viol = append(out.viol, s)
@@ -516,11 +549,20 @@ func execute(t tcase, level int, tc *touched, check bool) (out runOut) {
 	hooks := &tracing.Hooks{
 		OnEnter: func(depth int, typ byte, from, to common.Address, input []byte, gas uint64, value *big.Int) {
 			op := vm.OpCode(typ)
+			pendingBroken("OnEnter " + op.String())
 			static := op == vm.STATICCALL
+			sdepth := 0
 			if len(stack) > 0 && stack[len(stack)-1].static {
 				static = true
+				sdepth = stack[len(stack)-1].sdepth
 			}
-			fr := frameRec{typ: op, from: from, to: to, static: static}
+			if op == vm.STATICCALL {
+				sdepth++
+			}
+			if sdepth > out.sDepth {
+				out.sDepth = sdepth
+			}
+			fr := frameRec{typ: op, from: from, to: to, static: static, sdepth: sdepth}
 			if !check {
 				tc.addrs[from] = true
 				tc.addrs[to] = true
@@ -539,6 +581,11 @@ func execute(t tcase, level int, tc *touched, check bool) (out runOut) {
 			}
 			fr := stack[len(stack)-1]
 			stack = stack[:len(stack)-1]
+			if err == nil {
+				pendingBroken("OnExit without error")
+			} else if pending.active && pending.depth == depth+1 {
+				pending.active = false // the frame failed right there
+			}
 			if !check || fr.typ == vm.SELFDESTRUCT {
 				return
 			}
@@ -565,6 +612,19 @@ func execute(t tcase, level int, tc *touched, check bool) (out runOut) {
 						fr.typ, depth, fr.to.Hex(), cl, d))
 				}
 			}
+			if !reverted && fr.entry != nil && exit.refund != fr.entry.refund {
+				out.refunds++
+			}
+			if reverted && fr.moved {
+				if exit.refund > 0 {
+					out.kinds["revert-undoes-refund-nonzero"] = true
+				} else {
+					out.kinds["revert-undoes-refund"] = true
+				}
+			}
+			if fr.moved && !reverted && len(stack) > 0 {
+				stack[len(stack)-1].moved = true // the parent saw the counter away from its own entry value too (or not: harmless)
+			}
 			if fr.static {
 				out.nStatic++
 				out.kinds["static"+strings.ToLower(fr.typ.String())] = true
@@ -582,6 +642,33 @@ func execute(t tcase, level int, tc *touched, check bool) (out runOut) {
 			}
 			if !check {
 				tc.observe(op, scope)
+				return
+			}
+			if pending.active {
+				pendingBroken("opcode " + vm.OpCode(op).String())
+			}
+			if n := len(stack); n > 0 && !stack[n-1].moved && stack[n-1].entry != nil && st.GetRefund() != stack[n-1].entry.refund {
+				stack[n-1].moved = true
+			}
+			if len(stack) > 0 && stack[len(stack)-1].static && isWriteOp(vm.OpCode(op), scope) {
+				if err != nil {
+					out.nReject++ // rejected by the gas function / before execution
+				} else {
+					pending.active, pending.depth, pending.op, pending.pc = true, depth, vm.OpCode(op), pc
+				}
+			}
+		},
+		OnFault: func(pc uint64, op byte, gas, cost uint64, scope tracing.OpContext, depth int, err error) {
+			if !check || !pending.active {
+				return
+			}
+			if pending.depth == depth && pending.pc == pc {
+				pending.active = false
+				out.nReject++
+				// (an opcode that the rule set does not define yet fails as an invalid opcode)
+				if err == nil || !(strings.Contains(err.Error(), "write protection") || strings.Contains(err.Error(), "invalid opcode")) {
+					bad(fmt.Sprintf("%s in a static context failed with %v, want write protection", vm.OpCode(op), err))
+				}
 			}
 		},
 	}
@@ -752,6 +839,15 @@ func run(c Sx) Result {
 	}
 	if main.nStatic > 0 {
 		res.Tags = append(res.Tags, "staticframes")
+	}
+	if main.sDepth >= 2 {
+		res.Tags = append(res.Tags, fmt.Sprintf("staticnest%d", main.sDepth))
+	}
+	if main.nReject > 0 {
+		res.Tags = append(res.Tags, "staticwrite-rejected")
+	}
+	if main.refunds > 0 {
+		res.Tags = append(res.Tags, "refundmoves")
 	}
 	res.NonTrivial = main.nFailed > 0 || main.nStatic > 0
 	return res
